@@ -21,6 +21,7 @@ package grpcgcp
 import (
 	"context"
 	"fmt"
+	"math"
 	"reflect"
 	"strings"
 	"sync"
@@ -131,8 +132,14 @@ func (p *gcpPicker) Pick(info balancer.PickInfo) (balancer.PickResult, error) {
 // by 2^(refresh count since last response) as a time.Duration. This provides
 // exponential backoff when RPCs keep deadline exceeded after consecutive reconnections.
 func (p *gcpPicker) unresponsiveWindow(refreshCnt uint32) time.Duration {
-	factor := uint32(1 << refreshCnt)
-	return time.Millisecond * time.Duration(factor*p.gb.cfg.GetChannelPool().GetUnresponsiveDetectionMs())
+	ms := uint64(p.gb.cfg.GetChannelPool().GetUnresponsiveDetectionMs())
+	// Saturate instead of wrapping around (32-bit arithmetic used to overflow
+	// already for ms * 2^refreshCnt >= 2^32, i.e. ~50 days).
+	const maxMs = uint64(math.MaxInt64 / int64(time.Millisecond))
+	if refreshCnt >= 63 || ms > maxMs>>refreshCnt {
+		return time.Duration(math.MaxInt64)
+	}
+	return time.Millisecond * time.Duration(ms<<refreshCnt)
 }
 
 func (p *gcpPicker) detectUnresponsive(ctx context.Context, scRef *subConnRef, callStarted time.Time, rpcErr error) {
